@@ -309,6 +309,9 @@ func (a *OrderAnalysis) analyseFn(f *Fn) {
 			if fn, ok := f.Callee(x).(*types.Func); ok {
 				switch fn.FullName() {
 				case "slices.Sorted", "slices.SortedFunc", "slices.SortedStableFunc":
+					// the map's keys / values, sorted where they are collected: a sanitised map-range loop
+					a.Loops++
+					a.Sanitised = append(a.Sanitised, f.Name()+":"+types.ExprString(x.Fun)+"("+types.ExprString(call.Fun)+")")
 					return true
 				}
 			}
